@@ -2042,3 +2042,18 @@ Example ex_copy_run :
   | _ => False
   end.
 Proof. vm_compute. split; reflexivity. Qed.
+
+(* the two scanning facts behind "cannot be broken out of", on their own *)
+Lemma attr_scan_stops_proof : forall v rest,
+  span (fun c => negb (c =? 34)) (escape v ++ 34 :: rest) = (escape v, 34 :: rest).
+Proof.
+  intros v rest. rewrite escape_spec. destruct (escape_no_special v) as (_ & _ & E3). unfold c_quot in E3.
+  apply span_app_stop; [apply has_false_forallb; exact E3|reflexivity].
+Qed.
+
+Lemma text_scan_stops_proof : forall s X,
+  span (fun c => negb (c =? 60)) (escape s ++ 60 :: X) = (escape s, 60 :: X).
+Proof.
+  intros s X. rewrite escape_spec. destruct (escape_no_special s) as (E1 & _). unfold c_lt in E1.
+  apply span_app_stop; [apply has_false_forallb; exact E1|reflexivity].
+Qed.
